@@ -227,7 +227,10 @@ def run_case(ctx, case):
         if case["kind"] == "text":
             sub = parse_text_subroutine(case["text"])
         else:
-            sub = assemble_subroutine(gs.render_ir(items, kinds_of))
+            h = sum(len(str(it)) for it in items)     # deterministic per case (replays rebuild the same way)
+            build = ("whole", "append", "assign")[h % 3]
+            ctx.count("ir_built_" + build)
+            sub = assemble_subroutine(gs.render_ir(items, kinds_of, build=build, split=(h // 3) % (len(items) + 1)))
     except RuntimeError as e:
         nR = len({r for r in named_registers(items) if r[0] == "R"})
         if "no registers left" in str(e) and nR + max_lits(items) > 16:
